@@ -15,7 +15,7 @@ use crate::{
     parsers::{parse_date_time, IxdtfStringBuilder},
     primitive::FiniteF64,
     provider::{NeverProvider, TimeZoneProvider},
-    temporal_assert, MonthCode, TemporalError, TemporalResult, TemporalUnwrap, TimeZone,
+    MonthCode, TemporalError, TemporalResult, TemporalUnwrap, TimeZone,
 };
 use alloc::string::String;
 use core::{cmp::Ordering, str::FromStr};
@@ -128,11 +128,11 @@ impl PlainDateTime {
         // 7. Assert: IsValidISODate(result.[[Year]], result.[[Month]], result.[[Day]]) is true.
         // 8. Assert: IsValidTime(result.[[Hour]], result.[[Minute]], result.[[Second]], result.[[Millisecond]],
         // result.[[Microsecond]], result.[[Nanosecond]]) is true.
-        temporal_assert!(
-            result.is_within_limits(),
-            "Assertion failed: the below datetime is not within valid limits:\n{:?}",
-            result
-        );
+        // NOTE: The date can be within the date limits while the date-time is not (midnight of the
+        // first representable day), which is a RangeError as in CreateTemporalDateTime.
+        if !result.is_within_limits() {
+            return Err(TemporalError::range().with_message("DateTime is not within valid limits."));
+        }
 
         // 9. Return ? CreateTemporalDateTime(result.[[Year]], result.[[Month]], result.[[Day]], result.[[Hour]],
         // result.[[Minute]], result.[[Second]], result.[[Millisecond]], result.[[Microsecond]],
